@@ -126,6 +126,9 @@ def gather(tier: str, seed: int, want: Callable[[Model, gen.Unit, str, corpus.De
     `core` candidates in corpus order (fixed core) plus a VERIF_SEED-chosen slice"""
     build_pdlc()
     descs = corpus.corpus(tier, seed, families=families, backend='rust')
+    only = os.environ.get('VERIF_ONLY')      # debugging aid: restrict the corpus by a regular expression on the id
+    if only:
+        descs = [d for d in descs if re.search(only, d.id)]
     info = {'descriptions_in_corpus': len(descs), 'gen_failed_known': {}, 'beyond_cap': [], 'unsupported': []}
     with ThreadPoolExecutor(16) as ex:
         gens = list(ex.map(lambda d: gen.generate(d, 'rust'), descs))
@@ -205,6 +208,7 @@ def _write_and_run(shard: int, items: List[KItem], prop: str, harness_timeout: i
     compiled = bool(re.search(r'(?m)^(Thread \d+: )?Checking harness ', text)) or 'Complete - ' in text
     for it in items:
         it.result = res.get(it.key) or res.get(it.hname)
+        it.crate, it.shard = crate, shard
     return crate, compiled, text
 
 
@@ -371,7 +375,7 @@ def run_and_judge(prop: str, tier: str, seed: int, items: List[KItem], info: dic
             continue
         n_replayed += 1
         t_ = time.time()
-        shard, crate = _locate(it, crates, crates_retry, prop)
+        shard, crate = it.shard, it.crate
         try:
             pbs = playback(crate, shard, it)
         except Exception as e:  # noqa
